@@ -335,7 +335,7 @@ def check_C12(tier, seed):
         return rep.finish()
     rng = random.Random(seed)
     thorough = tier == "thorough"
-    cases = gen_cases(rng, 3000 if thorough else 260, 1500 if thorough else 90)
+    cases = gen_cases(rng, 40000 if thorough else 260, 20000 if thorough else 90)
     try:
         impl = common.run_harness("conc", cases, shards=min(8, common.NCPU))
     except common.CheckFailure as e:
